@@ -118,11 +118,13 @@ class G:
             q = _normalise([rnd.gauss(0.0, 1.0) for _ in range(4)])
         elif cls == "axis_angle":
             ax = self.unit_axis()
-            acls = rnd.choice(["zero", "tiny", "generic", "generic", "pi_minus_tiny", "pi"])
+            acls = rnd.choice(["zero", "tiny", "small", "generic", "generic", "pi_minus_tiny", "pi"])
             if acls == "zero":
                 a = 0.0
             elif acls == "tiny":
                 a = 10.0 ** rnd.uniform(-9, -6)
+            elif acls == "small":
+                a = rnd.choice([1.0, -1.0]) * 10.0 ** rnd.uniform(-6, -1.5)
             elif acls == "generic":
                 a = rnd.uniform(-PI, PI)
             elif acls == "pi_minus_tiny":
